@@ -196,7 +196,9 @@ def _body(case, ctx):
             raise Violation(f"{key}: observed order {order:.3f} between n={a} (e={errs[a]:.3e}) and n={b} (e={errs[b]:.3e}) is below 1 - delta = {1 - delta:.3f} "
                             f"(family {fam})")
     for x, y in zip(fam[:-1], fam[1:]):
-        if errs[y] > errs[x] * 1.02:
+        # members that differ by less than 30% in resolution (off-palette sizes) are in the pre-asymptotic scatter of each other:
+        # "decreases under refinement" is demanded strictly only across a real refinement step
+        if errs[y] > errs[x] * (1.02 if y >= 1.3 * x else 1.12):
             raise Violation(f"{key}: error grows under refinement: e({x}) = {errs[x]:.3e} < e({y}) = {errs[y]:.3e} (family {fam})")
     ctx.note(nontrivial=len(fam) >= 3 and case["disp_cells"] >= 2.0 and (1 - (1 / (1 + case["age_ratio"])) ** (1 if case["kind"] != "passive3d" else 1.5)) >= 0.05,
              labels=[key, "weak_structure_peak_below_1e-3" if case["peak"] < 1e-3 else "peak_order_one", f"family_{len(fam)}", f"finest_{fam[-1] // 16 * 16}plus", f"aspect_{case['aspect']}"]
